@@ -13,6 +13,7 @@
 #include "common/proto.hpp"
 #include <cassert>
 #include <memory>
+#include <new>
 #include <bluetoe/services/csc.hpp>
 #include <bluetoe/server.hpp>
 
@@ -62,6 +63,7 @@ struct rig_if
     virtual std::string ack() = 0;
     virtual std::string cccd( bool on ) = 0;
     virtual std::string wheel() = 0;
+    virtual std::string reconnect() = 0;
 };
 
 static std::string hex2( unsigned v )
@@ -185,6 +187,17 @@ struct rig : rig_if, Server
         return rsp.empty() ? "ok" : "pdu " + verif::to_hex( rsp );
     }
 
+    // link loss followed by a new connection of a client that is not bonded: the library is told
+    // about the disconnect, the connection data (notification queue, CCCDs, MTU) starts afresh
+    std::string reconnect() override
+    {
+        this->client_disconnected( con );
+        con.~connection_t();
+        new ( &con ) connection_t();
+        con.client_mtu( mtu );
+        return "ok";
+    }
+
     std::string wheel() override
     {
         data_handler& h = static_cast< data_handler& >( *this );
@@ -223,6 +236,7 @@ int main()
         if ( w[ 0 ] == "ack" && w.size() == 1 ) return r->ack();
         if ( w[ 0 ] == "cccd" && w.size() == 2 && verif::parse_u64( w[ 1 ], v ) && v < 2 ) return r->cccd( v == 1 );
         if ( w[ 0 ] == "wheel" && w.size() == 1 ) return r->wheel();
+        if ( w[ 0 ] == "reconnect" && w.size() == 1 ) return r->reconnect();
         return "bad-op";
     } );
 }
